@@ -152,9 +152,11 @@ class TokenStore(Generic[_T]):
 
     @classmethod
     def from_tokens(cls, tokens: list[_T]) -> Self:
+        seen = set[int]()
         for token in tokens:
-            if token.store_handle:
+            if token.store_handle or id(token) in seen:
                 raise ValueError('Token already in a store.')
+            seen.add(id(token))
         store = cls()
         if tokens:
             store._blocks[:] = list(_build_blocks(store, 0, tokens))
